@@ -14,7 +14,7 @@ REQUIRED_MONITORS = ["markers@stab_plot(function)", "markers@cluster_plot(functi
                      "markers@pLSCF.plot_stab", "markers@pLSCF.plot_cluster", "curves@FDD.plot_CMIF", "marker-order accepted by mpe"]
 ALL_STATES = ["hide_poles=True", "hide_poles=False", "with covariance error bars", "freqlim given", "step=1", "step=2", "step=3", "more rows than orders", "more orders than rows",
               "empty column", "no stable pole", "nSv=all", "nSv<all"]
-REQUIRED_STATES = ["hide_poles=True", "hide_poles=False", "with covariance error bars", "freqlim given", "step=2", "more rows than orders", "more orders than rows", "nSv=all", "nSv<all"]
+REQUIRED_STATES = ["hide_poles=True", "hide_poles=False", "with covariance error bars", "freqlim given", "step=2", "more rows than orders", "more orders than rows", "nSv=all", "nSv<all", "column-major tables"]
 RULE = ("random pole / label tables up to 60 orders, non-square, any NaN pattern, labels 0/1, step 1..3 at function level, freqlim, with/without covariance; results "
         "of real SSIcov / pLSCF / FDD runs through the classes' plot methods; the data of the matplotlib artists on the returned axes (Agg) are read back: green "
         "'o' Line2D = multiset {(Fn[i,j], j*step): Lab=1}, red PathCollection = {(Fn[i,j], j*step): Lab=0}, cluster diagram with Xi as ordinate; CMIF "
@@ -88,6 +88,8 @@ def judge_axes(ctx, tag, sig, ax, Fn, Lab, Y, hide):
 def make_tables(rng):
     nr = int(rng.integers(1, 20))
     no = int(rng.integers(2, 61))
+    if rng.random() < 0.1:
+        nr, no = (1, int(rng.integers(2, 10))) if rng.random() < 0.5 else (int(rng.integers(2, 10)), 2)
     Fn = rng.uniform(0.5, 50, (nr, no))
     Xi = rng.uniform(0.001, 0.1, (nr, no))
     mask = rng.random((nr, no)) < rng.choice([0.0, 0.3, 0.7])
@@ -98,6 +100,8 @@ def make_tables(rng):
     Lab = (rng.random((nr, no)) < rng.choice([0.0, 0.3, 0.6])).astype(int)
     Lab[:, 0] = 0
     Lab[mask] = 0
+    if rng.random() < 0.3:  # a legal memory layout: column-major tables (e.g. a transposed orders-by-slots array)
+        Fn, Xi, Lab = np.asfortranarray(Fn), np.asfortranarray(Xi), np.asfortranarray(Lab)
     return Fn, Xi, Lab, mask
 
 
@@ -120,9 +124,17 @@ def run_tables(ctx, rng):
     if freqlim is not None:
         ctx.check(tuple(np.round(ax.get_xlim(), 9)) == freqlim, "stab:freqlim", lambda: f"xlim {ax.get_xlim()} for freqlim {freqlim}")
     plt.close(fig)
-    fig, ax = P_.cluster_plot(Fn, Xi, Lab, ordmin=0, freqlim=freqlim, hide_poles=hide)
-    judge_axes(ctx, "markers@cluster_plot(function)", "cluster", ax, Fc, Lc, lambda i, j: Xi[i, j], hide)
+    # history: the same diagram drawn again (a dialog re-plots after every click) must show the same markers
+    fig, ax = P_.stab_plot(Fn, Lab, step, (no - 1) * step, ordmin=0, freqlim=freqlim, hide_poles=hide, Fn_cov=cov)
+    judge_axes(ctx, "markers@stab_plot(function)", "stab_second_call", ax, Fc, Lc, lambda i, j: j * step, hide)
     plt.close(fig)
+    Xc = Xi.copy()
+    fig, ax = P_.cluster_plot(Fn, Xi, Lab, ordmin=0, freqlim=freqlim, hide_poles=hide)
+    judge_axes(ctx, "markers@cluster_plot(function)", "cluster", ax, Fc, Lc, lambda i, j: Xc[i, j], hide)
+    ctx.check(np.array_equal(Fn, Fc, equal_nan=True) and np.array_equal(Xi, Xc, equal_nan=True) and np.array_equal(Lab, Lc), "cluster:inputs_modified", "cluster_plot modified its inputs")
+    plt.close(fig)
+    if Fn.flags.f_contiguous and not Fn.flags.c_contiguous:
+        ctx.state("column-major tables")
     fin = np.isfinite(Fn)
     if no >= 2 and (Lab[fin] == 1).any() and (Lab[fin] == 0).any():
         ctx.nontrivial(("tables", Fn.shape, step, hide, cov is not None, float(np.nansum(Fn))))
